@@ -5,6 +5,7 @@
 (* subset of the one Expr.tla evaluates:                                   *)
 (*   [op |-> "ext", up |-> n, path |-> <<[k |-> "key", name |-> cps] | [k |-> "idx", i |-> n]>>]   *)
 (*   [op |-> "ictx", what |-> "index" | "index-in-file"]                                             *)
+(*   [op |-> "sel", name |-> cps]                                                                    *)
 (*   [op |-> "lit", v |-> value]   [op |-> "var", name |-> cps]   [op |-> "none"]                  *)
 (***************************************************************************)
 EXTENDS JsonValues
@@ -25,5 +26,9 @@ CoreEv(e, c) ==
     [] e.op = "var" -> VarOf(c, e.name)
     \* &index / &index-in-file: the ordinal of the record the context descends from (also behind --split-by and in later stages)
     [] e.op = "ictx" -> DecOfInt(IF e.what = "index" THEN c.idx ELSE c.fidx)
+    \* /name/: the value of the first earlier selection of that name (absent if that one selected nothing)
+    [] e.op = "sel" -> IF \E i \in 1..Len(c.results) : c.results[i].name = e.name
+                       THEN c.results[CHOOSE i \in 1..Len(c.results) : c.results[i].name = e.name /\ \A j \in 1..(i - 1) : c.results[j].name # e.name].v
+                       ELSE Nothing
     [] e.op = "none" -> Nothing
 =============================================================================
